@@ -413,6 +413,15 @@ def boundary_cases():
     mk("tiny_repeat", ["A 1 %d 7" % (c + 7), "T 7", "F [ ]", "F [ ]", "T 7", "F [ ]", "T 100", "F [ T 50 ]", "F [ ]"])
     mk("rejected", ["A 1 0 0", "A 2 -5 0", "T -1", "A 3 %d 0" % (c + 1), "T 1", "F [ A 4 0 0 , T -2 ]"])
     mk("stale_fire", ["A 1 %d 0" % (c + 1000), "F [ ]", "T 500", "F [ ]", "T 500", "F [ ]"])
+    # at the case splits of the history / order / same-batch-cancel proofs (C06_Hist, C06_Order, C07_Proofs)
+    mk("repeat_tick_in_batch", ["A 1 %d 1000" % (c + 1000), "A 2 %d 0" % (c + 1000), "T 1000", "F [ T 5000 ; T 7 ]", "F [ ]", "T 1000", "F [ ]"])
+    mk("sibling_cancel_later", ["A 1 %d 1000" % (c + 1000), "A 2 %d 1000" % (c + 1001), "T 1001", "F [ C 2 ]", "T 1000", "F [ ]", "T 1000", "F [ ]"])
+    mk("sibling_cancel_earlier", ["A 1 %d 1000" % (c + 1000), "A 2 %d 1000" % (c + 1001), "T 1001", "F [ ; C 1 ]", "T 1000", "F [ ]", "T 1000", "F [ ]"])
+    mk("oneshot_sibling_cancel", ["A 1 %d 0" % (c + 1000), "A 2 %d 0" % (c + 1000), "A 3 %d 500" % (c + 1000), "T 1000", "F [ C 3 , C 2 ; C 1 ; C 3 ]", "T 600", "F [ ]"])
+    mk("stale_arm_progress", ["A 1 %d 0" % (c + 500), "A 2 %d 0" % (c + 8000), "C 1", "T 600", "F [ ]", "F [ ]", "T 7400", "F [ ]", "F [ ]"])
+    mk("order_across_batches", ["A 2 %d 0" % (c + 700), "A 1 %d 0" % (c + 500), "T 600", "F [ ]", "T 200", "F [ ]"])
+    mk("cancel_readd_in_batch", ["A 1 %d 0" % (c + 10), "A 2 %d 500" % (c + 900), "T 10", "F [ C 2 , A 3 %d 500 , C 3 , A 4 %d 0 ]" % (c + 900, c + 900), "T 1000", "F [ ]"])
+    mk("deadline_eq_sentinel", ["A 1 %d 0" % (c + 100), "A 2 %d 0" % (c + 101), "T 100", "F [ ]", "T 1", "F [ ]"])
     return out
 
 
